@@ -1,4 +1,5 @@
 import Sucds.Proofs.GenIterators
+import Sucds.Proofs.IterNth
 import Sucds.Proofs.GenCompactVector
 import Sucds.Proofs.GenDacsByte
 import Sucds.Proofs.GenDacsOpt
@@ -268,4 +269,35 @@ theorem near_usize_max :
       (fun r => r.2) = .error .overflow ∧
     (GenFn.UnaryIter.next ⟨false, false⟩ (GenFn.BitVector.unary_iter (BV.fromBits [true]) (2^64 - 1))).map
       (fun r => r.2) = .ok (some 0) := ⟨by rfl, by rfl⟩
+
+/-! ### Walking by hops: `Iterator::nth` (what `skip` and `step_by` call)
+
+None of the crate's iterators overrides `nth`, so it is std's default: `k` calls of `next`, then `next`
+(`IndexIter.nth`; `IndexIter.nthStd`, with std's early stop, is proved equal). For every list, start and hop:
+the answer is the element `k` places further on, the iterator then stands behind it (or is exhausted and stays so),
+what it yields afterwards is exactly the rest of the list, and its size hint is exact. -/
+theorem nth_yields_the_element_k_places_on {α} (xs : List α) (acc : Nat → Option α) (hacc : ∀ i, acc i = xs[i]?)
+    (k : Nat) (it : IndexIter.It) :
+    (IndexIter.nth xs.length acc it k).1 = xs[it.pos + k]? ∧
+    (IndexIter.nth xs.length acc it k).2.pos = (if it.pos + k < xs.length then it.pos + k + 1 else max it.pos xs.length) ∧
+    IndexIter.nthStd xs.length acc it k = IndexIter.nth xs.length acc it k ∧
+    IndexIter.sizeHint xs.length (IndexIter.nth xs.length acc it k).2 =
+      (xs.length - (it.pos + k + 1), some (xs.length - (it.pos + k + 1))) ∧
+    (∀ t, (IndexIter.runN xs.length acc (IndexIter.nth xs.length acc it k).2 (xs.length - (it.pos + k + 1) + t)).map (·.1) =
+      (xs.drop (it.pos + k + 1)).map some ++ List.replicate t none) :=
+  ⟨(IndexIter.nth_spec xs acc hacc k it).1, (IndexIter.nth_spec xs acc hacc k it).2, IndexIter.nthStd_eq_nth xs acc hacc k it,
+   IndexIter.sizeHint_after_nth xs acc hacc it k, fun t => IndexIter.answers_after_nth xs acc hacc it k t⟩
+
+/-- once a hop has overshot, the iterator is exhausted for good (every later `next` and `nth` answers `None`) -/
+theorem nth_past_the_end_exhausts {α} (xs : List α) (acc : Nat → Option α) (hacc : ∀ i, acc i = xs[i]?) (it : IndexIter.It) (k : Nat)
+    (h : (IndexIter.nth xs.length acc it k).1 = none) :
+    IndexIter.next xs.length acc (IndexIter.nth xs.length acc it k).2 = (none, (IndexIter.nth xs.length acc it k).2) ∧
+    ∀ j, IndexIter.nth xs.length acc (IndexIter.nth xs.length acc it k).2 j = (none, (IndexIter.nth xs.length acc it k).2) :=
+  IndexIter.nth_none_stays xs acc hacc it k h
+
+/-- the same over the `next` generated from `src/int_vectors/compact_vector.rs` -/
+theorem generated_compact_vector_nth (c : Cfg) (cv : CV) (xs : List Nat) (h : CV.Rep cv xs) (hsz : cv.len * cv.width < 2^64)
+    (hl : cv.len < 2^64) (k : Nat) :
+    GenEq.cvNth c (GenFn.CompactVector.iter cv) k = .ok (⟨cv, min (k + 1) xs.length⟩, xs[k]?) :=
+  GenEq.cv_iter_nth c cv xs h hsz hl k
 end Sucds.C17Gen
